@@ -296,6 +296,17 @@ func c11Wiring(c *Check) {
 			return true
 		}
 		bad := ""
+		// the limiter is built exactly when limits were configured for the scope: the guard is true for a non-empty list
+		if v, ok := evalExpr(info, is.Cond, func(e ast.Expr) (constantValue, bool) {
+			if lc, ok := ast.Unparen(e).(*ast.CallExpr); ok && len(lc.Args) == 1 {
+				if id, ok := lc.Fun.(*ast.Ident); ok && id.Name == "len" && objOf(info, lc.Args[0]) == guard {
+					return makeInt(1), true
+				}
+			}
+			return nil, false
+		}); !ok || !boolVal(v) {
+			bad = "the limiter of this scope is not built when limits ARE configured for it (the guard on len(" + guard.Name() + ") has the wrong polarity): the configured limits are never enforced"
+		}
 		for _, u := range used {
 			if u != guard {
 				bad = "the limiter guarded by len(" + guard.Name() + ") is built from " + u.Name() + " (the configured limits of this scope are ignored)"
@@ -577,6 +588,82 @@ func c11Pairing(c *Check) {
 			}
 			c.Hold("R2", "Group.TakeMsg:rollback:"+st.field, r.Pos(st.pt), msg == "", msg)
 		}
+	}
+	// (v-b) what TakeMsg / TakeDest take, ReleaseMsg / ReleaseDest give back: every limiter field acquired in the taking
+	// function is released in its sibling on every path where that field is configured (non-nil)
+	for _, pair := range [][2]string{{"TakeMsg", "ReleaseMsg"}, {"TakeDest", "ReleaseDest"}} {
+		rt, rr := c.In(limitsRel, "Group", pair[0]), c.In(limitsRel, "Group", pair[1])
+		if rt == nil || rr == nil {
+			c.Fail("R2", "Group."+pair[1]+":gives-back", token.NoPos, "anchor unresolved")
+			continue
+		}
+		taken := map[string]bool{}
+		for _, call := range callsIn(rt.FI.Decl.Body) {
+			if m := methodName(call); m == "TakeContext" || m == "Take" {
+				if fv := fieldOf(rt.Info, callRecv(call)); fv != nil {
+					taken[objName(fv)] = true
+				}
+			}
+		}
+		msg := ""
+		if len(taken) == 0 {
+			msg = "undecided: " + pair[0] + " acquires nothing"
+		}
+		ri := rr.Info
+		for fld := range taken {
+			rel := func(pt Pt) bool {
+				for _, call := range callsAt(pt.Node()) {
+					if methodName(call) == "Release" {
+						if fv := fieldOf(ri, callRecv(call)); fv != nil && objName(fv) == fld {
+							return true
+						}
+					}
+					// a method of the group that releases that scope when it is configured (`g.releaseIP(addr)`)
+					if fn := callee(ri, call); fn != nil && fn.Pkg() == rr.FI.Obj.Pkg() && fn != rr.FI.Obj {
+						if d := c.P.DeclOf(fn); d != nil && d.Decl.Body != nil {
+							g := c.CtxOf(d)
+							gi := g.Info
+							grel := func(q Pt) bool {
+								for _, c2 := range callsAt(q.Node()) {
+									if methodName(c2) == "Release" {
+										if fv := fieldOf(gi, callRecv(c2)); fv != nil && objName(fv) == fld {
+											return true
+										}
+									}
+								}
+								return false
+							}
+							gw := g.F.World(func(atom ast.Expr) (bool, bool) {
+								if be, ok := ast.Unparen(atom).(*ast.BinaryExpr); ok && (be.Op == token.EQL || be.Op == token.NEQ) && isNilIdent(gi, be.Y) {
+									if fv := fieldOf(gi, be.X); fv != nil && objName(fv) == fld {
+										return be.Op == token.NEQ, true
+									}
+								}
+								return false, false
+							})
+							if len(g.F.Find(func(n ast.Node) bool { return grel(ptOfNode(g.F, n)) })) > 0 {
+								if _, skips := g.F.Reach(Query{From: g.Entry(), Inclusive: true, Target: g.F.IsExitPt, Avoid: grel, AvoidEdge: gw}); !skips {
+									return true
+								}
+							}
+						}
+					}
+				}
+				return false
+			}
+			w := rr.F.World(func(atom ast.Expr) (bool, bool) {
+				if be, ok := ast.Unparen(atom).(*ast.BinaryExpr); ok && (be.Op == token.EQL || be.Op == token.NEQ) && isNilIdent(ri, be.Y) {
+					if fv := fieldOf(ri, be.X); fv != nil && objName(fv) == fld {
+						return be.Op == token.NEQ, true // the limiter of this scope is configured
+					}
+				}
+				return false, false
+			})
+			if path, f := rr.F.Reach(Query{From: rr.Entry(), Inclusive: true, Target: rr.F.IsExitPt, Avoid: rel, AvoidEdge: w}); f {
+				msg = pair[1] + " can return without releasing the permit of scope `" + fld + "` that " + pair[0] + " acquired (the scope fills up and never drains): " + rr.F.Describe(path)
+			}
+		}
+		c.Hold("R2", "Group."+pair[1]+":gives-back", rr.FI.Decl.Pos(), msg == "", msg)
 	}
 	// (vi) MultiLimit roll-back releases exactly the prefix
 	for _, m := range []string{"Take", "TakeContext"} {
